@@ -109,7 +109,7 @@ var (
 	logHash  uint64
 	blockedN int
 	mainWake chan int
-	wg       sync.WaitGroup
+	wg       *sync.WaitGroup // per run: abandoned tasks of earlier runs never call Done
 	pctPts   [8]uint64
 	npct     int
 	mapRand  bool
@@ -565,9 +565,10 @@ func taskMain(t *Task) {
 	raceDisable()
 	<-t.wake
 	raceEnable()
+	myWG := wg
 	defer func() {
 		// a panic escaping a task body is a harness error; bodies recover their own operations
-		wg.Done()
+		myWG.Done()
 		finish(t)
 	}()
 	t.body(t)
@@ -655,6 +656,7 @@ func setup(cfg Config) {
 		switchP = uint64(p * 4294967296.0)
 	}
 	mainWake = make(chan int, 1)
+	wg = new(sync.WaitGroup)
 	cur = nil
 }
 
